@@ -31,6 +31,10 @@ def make_base(seed):
         # forcing frames between two model times (dt does not divide the frame times): a frame belongs to the step
         # that holds it, before and after a restart alike
         sc["frame_off"] = scen.DT // 2
+    if seed % 5 == 2 and not sc.get("vertadv"):
+        # depth is stored packed (16-bit integers with scale_factor and add_offset; the depths of these set-ups are
+        # quarters of a metre, so nothing is lost): a restart reads what the file means, not what it stores
+        sc["_pack"] = True
     if sc["continuous"]:
         # a file entry that is not a whole number of release periods after the first one: an uninterrupted run
         # never reaches it (ticks are counted from the first file time); a restarted run must not either
@@ -83,6 +87,9 @@ def run_base_and_restarts(sc):
     out = dict(restarts=[])
     with lab.scratch() as d:
         conf = scen.write(sc, d)
+        packed_z = dict(encoding=dict(datatype="i2"), attributes=dict(long_name="Z", scale_factor=0.25, add_offset=1.0))
+        if sc.get("_pack"):
+            conf["output"]["instance_variables"]["Z"] = copy.deepcopy(packed_z)
         out["status"] = lab.run(conf, d)
         out["files"] = scen.read_outputs(d, sc)
         import json
@@ -102,6 +109,8 @@ def run_base_and_restarts(sc):
             scw["kill"] = {str(int(s_) - rstep): v for s_, v in sc["kill"].items() if int(s_) - rstep >= 0}
             conf2 = scen.write(scw, wd, out_name=nxt,
                                warm=dict(filename=str(d / fk["name"]), variables=(["age"] if sc["age"] else []) + (["release_time"] if sc["pvars"] else [])))
+            if sc.get("_pack"):
+                conf2["output"]["instance_variables"]["Z"] = copy.deepcopy(packed_z)
             st = lab.run(conf2, wd)
             out["restarts"].append(dict(k=k, status=st, files=scen.read_outputs(wd, sc, pattern="out*.nc")))
     return out
